@@ -4,9 +4,9 @@ from . import tlc
 from .env import WORK
 
 
-def write_shards(records, name, nshards=16):
+def write_shards(records, name, nshards=16, per_shard=200):
     os.makedirs(os.path.join(WORK, "traces"), exist_ok=True)
-    nshards = max(1, min(nshards, (len(records) + 199) // 200))
+    nshards = max(1, min(nshards, (len(records) + per_shard - 1) // per_shard))
     paths = []
     for s in range(nshards):
         p = os.path.join(WORK, "traces", f"{name}_{os.getpid()}_{s}.ndjson")
@@ -31,12 +31,12 @@ def parse_rejects(out):
     return rej
 
 
-def judge(records, spec_dir, module, cfg, name, res, nshards=16, heap="1g", timeout=3600, keep=False):
+def judge(records, spec_dir, module, cfg, name, res, nshards=16, heap="1g", timeout=3600, keep=False, per_shard=200):
     """Validate records (each with unique 'id') by the batch trace spec. Returns {id: set(clauses)} of rejects.
     Any mismatch between records sent and records judged is a machinery error."""
     if not records:
         return {}
-    paths = write_shards(records, name, nshards)
+    paths = write_shards(records, name, nshards, per_shard)
     jobs = [dict(spec_dir=spec_dir, module=module, cfg=cfg, workers=1, env={"TRACE_FILE": p},
                  heap=heap, timeout=timeout, tag=f"{name}_{i}") for i, p in enumerate(paths)]
     outs = tlc.run_many(jobs)
